@@ -424,6 +424,7 @@ type rsCase struct {
 	bundles []fsBundle
 	forks   []rsFork
 	cur     curRec
+	failAt  int // the handler fails on its call number failAt+1 (0 = never fails; stored +1 so that the zero value means none)
 }
 
 func cursorableLine(blk *pbbstream.Block, obj interface{}) string {
@@ -466,13 +467,21 @@ func runResolverCase(o *Out, c rsCase) {
 			forked.SetFile(name, []byte("garbage that is not dbin"))
 		}
 	}
+	if c.failAt > 0 {
+		o.Line("failat %d", c.failAt-1)
+	}
 	o.Op("resume %s %s %s %s", c.cur.step, c.cur.blk, c.cur.head, c.cur.lib)
 	merged := mergedStore(c.bundles, nil)
 	var mu sync.Mutex
+	calls := 0
 	h := bstream.HandlerFunc(func(blk *pbbstream.Block, obj interface{}) error {
 		mu.Lock()
 		defer mu.Unlock()
 		o.Impl("%s", cursorableLine(blk, obj))
+		calls++
+		if c.failAt > 0 && calls == c.failAt {
+			return fmt.Errorf("injected handler failure")
+		}
 		return nil
 	})
 	opts := []bstream.FileSourceOption{bstream.FileSourceWithBundleSize(c.bs), bstream.FileSourceWithRetryDelay(2 * time.Millisecond),
@@ -601,6 +610,20 @@ func suiteResolver(o *Out, r *Rng, n int, tier string) {
 				c.cur = forkedCand[r.Intn(len(forkedCand))]
 			}
 		}
+		undoOnCanon := false
+		if r.Intn(2) == 0 { // an Undo cursor whose block became canonical again, with blocks between its LIB and its block
+			var uc []curRec
+			for _, e := range cand {
+				if e.step == "undo" && onChain[strings.Split(e.blk, ":")[0]] && parseRefTok(e.lib).Num()+1 < parseRefTok(e.blk).Num() {
+					uc = append(uc, e)
+				}
+			}
+			if len(uc) > 0 {
+				c.cur = uc[r.Intn(len(uc))]
+				undoOnCanon = true
+				o.Stat("resolver.cursor_undo_on_canonical_block", 1)
+			}
+		}
 		o.Stat("resolver.cursor."+c.cur.step, 1)
 		if !onChain[strings.Split(c.cur.blk, ":")[0]] {
 			o.Stat("resolver.cursor_on_forked_block", 1)
@@ -617,6 +640,11 @@ func suiteResolver(o *Out, r *Rng, n int, tier string) {
 				c.start = chain[0].Num
 			}
 			o.Stat("resolver.through", 1)
+		}
+		// fault injection (C11): the handler fails on one of its first calls
+		if r.Intn(5) == 0 || (undoOnCanon && r.Bool()) {
+			c.failAt = 1 + []int{0, 0, 0, 1, 2, 3, 5}[r.Intn(7)]
+			o.Stat("resolver.handler_failure_injected", 1)
 		}
 		runResolverCase(o, c)
 	}
@@ -646,6 +674,9 @@ func replayResolver(o *Out, lines []string) {
 			fmt.Sscan(ws[6], &c.bs)
 		case "bundle":
 			c.bundles = append(c.bundles, parseBundleLine(ws))
+		case "failat":
+			fmt.Sscan(ws[1], &c.failAt)
+			c.failAt++
 		case "fork":
 			bu := parseBundleLine([]string{"bundle", "0", ws[1]})
 			c.forks = append(c.forks, rsFork{b: bu.blocks[0], present: true, readable: ws[2] == "1"})
